@@ -129,8 +129,10 @@ FracParts == {D_(<<0>>), D_(<<5>>), D_(<<1>>), D_(<<2, 5>>), D_(<<0, 0, 1>>), D_
               D_(<<3, 3, 3, 3, 3, 3, 3, 3, 3, 3, 3, 3, 3, 3, 3, 3, 3, 3>>)}
 ZeroRuns == {<<>>, <<48>>, <<48, 48>>}
 
+(* The large pools take a dummy argument so that TLC does not evaluate them at start-up in runs (mutant twins, *)
+(* judge) that never use them.                                                                              *)
 (* at most 30 digits, leading and trailing zeros included *)
-DecimalTexts == {t \in {lz \o ip \o <<cDot>> \o fp \o tz : lz \in ZeroRuns, ip \in IntParts, fp \in FracParts, tz \in ZeroRuns} : Len(t) <= 31}
+DecimalTexts(lazy) == {t \in {lz \o ip \o <<cDot>> \o fp \o tz : lz \in ZeroRuns, ip \in IntParts, fp \in FracParts, tz \in ZeroRuns} : Len(t) <= 31}
 (* 30 digits: 15.15, 1.29, 29.1 *)
 LongTexts == {D_(<<1, 2, 3, 4, 5, 6, 7, 8, 9, 0, 1, 2, 3, 4, 5>>) \o <<cDot>> \o D_(<<5, 4, 3, 2, 1, 0, 9, 8, 7, 6, 5, 4, 3, 2, 1>>),
               D_(<<7>>) \o <<cDot>> \o D_(<<0, 0, 0, 0, 0, 0, 0, 0, 0, 0, 0, 0, 0, 0, 0, 0, 0, 0, 0, 0, 0, 0, 0, 0, 0, 0, 0, 0, 1>>),
@@ -145,7 +147,7 @@ QtyNums == {D_(<<5>>), D_(<<0>>), D_(<<1>>) \o <<cDot>> \o D_(<<5, 0>>), D_(<<0,
             D_(<<1, 2, 3, 4, 5, 6, 7, 8, 9, 0, 1, 2, 3, 4, 5, 6, 7, 8, 9>>) \o <<cDot>> \o D_(<<1>>)}
 (* units written with escapes: \u00b5g, a\'b, a\\b (the unit is a STRING token, so escapes are decoded) *)
 EscapedUnits == {<<92, 117, 48, 48, 98, 53, 103>>, <<97, 92, 39, 98>>, <<97, 92, 92, 98>>}
-QuantityTexts == {n \o <<cSpace>> \o <<cSQ>> \o u \o <<cSQ>> : n \in QtyNums, u \in UnitPool}
+QuantityTexts(lazy) == {n \o <<cSpace>> \o <<cSQ>> \o u \o <<cSQ>> : n \in QtyNums, u \in UnitPool}
                  \cup {D_(<<5>>) \o <<cSpace>> \o <<cSQ>> \o u \o <<cSQ>> : u \in EscapedUnits}
                  \cup {n \o <<cSQ>> \o UnitMg \o <<cSQ>> : n \in QtyNums}
                  \cup {n \o <<cSpace>> \o kw : n \in QtyNums, kw \in Keywords}
@@ -163,9 +165,9 @@ RandDecimal(seed, k) ==
 NumberCases(seed) ==
   {NumCase("boolean", t) : t \in {cTrue, cFalse}}
   \cup {NumCase("integer", t) : t \in IntegerTexts}
-  \cup {NumCase("decimal", t) : t \in DecimalTexts \cup LongTexts}
+  \cup {NumCase("decimal", t) : t \in DecimalTexts(0) \cup LongTexts}
   \cup {NumCase("decimal", RandDecimal(seed, k)) : k \in 1..NRandom}
-  \cup {NumCase("quantity", t) : t \in QuantityTexts}
+  \cup {NumCase("quantity", t) : t \in QuantityTexts(0)}
 
 (* o.lit, o.rt, o.rteq : literal, literal.toString().toX(), ( ... = literal) *)
 JNumber(o) ==
@@ -234,7 +236,7 @@ DescDen(ds) ==
                              IF ds.tp >= 6 THEN ds.tm[3] ELSE 0, IF ds.tp >= 6 THEN FracMsOf(ds.f) ELSE 0,
                              ds.z.form # "none", ds.z.off)
 NoZone == Zone("none", 0)
-TemporalDescs ==
+TemporalDescs(lazy) ==
   {[k |-> "date", p |-> p, dt |-> d, tp |-> 0, tm |-> <<0, 0, 0>>, f |-> <<>>, z |-> NoZone] : p \in 1..3, d \in DatePool}
   \cup {[k |-> "dtp", p |-> p, dt |-> d, tp |-> 0, tm |-> <<0, 0, 0>>, f |-> <<>>, z |-> NoZone] : p \in 1..3, d \in DatePool}
   \cup {[k |-> "time", p |-> 0, dt |-> <<1, 1, 1>>, tp |-> tp, tm |-> t, f |-> <<>>, z |-> NoZone] : tp \in 4..5, t \in TimePool}
@@ -275,7 +277,7 @@ TemporalCaseOfText(sub, text, den) ==
       canonR |-> IF p.ok THEN TemporalLit(IF p.inexact /\ p.up THEN RoundedUp(p.v) ELSE p.v) ELSE text]
 
 TemporalCases(seed) ==
-  {TemporalCaseOfText("pool", DescText(ds), DescDen(ds)) : ds \in TemporalDescs}
+  {TemporalCaseOfText("pool", DescText(ds), DescDen(ds)) : ds \in TemporalDescs(0)}
   \cup {TemporalCaseOfText("rand", DescText(RandTemporalDesc(seed, k)), DescDen(RandTemporalDesc(seed, k))) : k \in 1..NRandom}
   \cup {TemporalCaseOfText("invalid", t, [t |-> "none"]) : t \in InvalidTemporalTexts}
 
@@ -329,7 +331,7 @@ El(ek, prec, d, t, us, z) ==
       h |-> IF p >= 6 THEN t[1] ELSE 0, mi |-> IF p >= 6 THEN t[2] ELSE 0, sec |-> IF p >= 6 THEN t[3] ELSE 0,
       us |-> us, tzs |-> z.tzs, off |-> z.off]
 NoTz == [tzs |-> "", off |-> 0]
-Elements ==
+Elements(lazy) ==
   {El("Date", pr, d, <<0, 0, 0>>, 0, z) : pr \in DateProtoPrecs, d \in DatePool, z \in TzPool}
   \cup {El("DateTime", pr, d, <<0, 0, 0>>, 0, z) : pr \in {"YEAR", "MONTH", "DAY"}, d \in DatePool, z \in TzPool}
   \cup UNION {{El(ek, pr, d, t, us, z) : d \in DatePool, t \in TimePool, us \in UsFor(pr), z \in TzPool}
@@ -352,14 +354,14 @@ SysOfEl(el) ==
                    ELSE MkDT(p, el.y, el.mo, el.d, el.h, el.mi, el.sec, el.us \div 1000, TRUE, el.off)
 
 (* expressions whose value is converted to an element: literals, or -literal *)
-ProtoToExprs ==
-  {[ek |-> "Date", expr |-> DescText(ds)] : ds \in {x \in TemporalDescs : x.k = "date"}}
-  \cup {[ek |-> "DateTime", expr |-> DescText(ds)] : ds \in {x \in TemporalDescs : x.k = "dtp" \/ (x.k = "dt" /\ Len(x.f) \in {0, 3})}}
-  \cup {[ek |-> "Time", expr |-> DescText(ds)] : ds \in {x \in TemporalDescs : x.k = "time" /\ Len(x.f) \in {0, 3}}}
+ProtoToExprs(lazy) ==
+  {[ek |-> "Date", expr |-> DescText(ds)] : ds \in {x \in TemporalDescs(0) : x.k = "date"}}
+  \cup {[ek |-> "DateTime", expr |-> DescText(ds)] : ds \in {x \in TemporalDescs(0) : x.k = "dtp" \/ (x.k = "dt" /\ Len(x.f) \in {0, 3})}}
+  \cup {[ek |-> "Time", expr |-> DescText(ds)] : ds \in {x \in TemporalDescs(0) : x.k = "time" /\ Len(x.f) \in {0, 3}}}
   \cup {[ek |-> "Decimal", expr |-> sg \o t] : sg \in {<<>>, <<cMinus>>},
           t \in LongTexts \cup {ip \o <<cDot>> \o fp : ip \in IntParts, fp \in FracParts}}
   \cup {[ek |-> "Integer", expr |-> sg \o t] : sg \in {<<>>, <<cMinus>>}, t \in {D_(<<0>>), D_(<<1>>), D_(<<4, 2>>), D_(<<2, 1, 4, 7, 4, 8, 3, 6, 4, 7>>)}}
-  \cup {[ek |-> "Quantity", expr |-> t] : t \in QuantityTexts}
+  \cup {[ek |-> "Quantity", expr |-> t] : t \in QuantityTexts(0)}
 
 (* scalar elements: kind, and the value as a Boolean b, an integer i, or a text s (Quantity: s = value, code = unit) *)
 Scalar(ek, b, i, str, code) == [ek |-> ek, b |-> b, i |-> i, s |-> str, code |-> code]
@@ -367,7 +369,7 @@ StringLikeKinds == {"String", "Uri", "Url", "Code", "Oid", "Id", "Uuid", "Markdo
 ScalarStrings == {<<>>, <<97, 98, 99>>, <<233, 39, 92, 34, 8364>>, <<32, 120, 32>>}
 ScalarDecimals == {D_(<<0>>), D_(<<1>>) \o <<cDot>> \o D_(<<5, 0>>), <<cMinus>> \o D_(<<0>>) \o <<cDot>> \o D_(<<0, 0, 1>>),
                    D_(<<0, 0, 7>>), <<cMinus>> \o D_(<<4, 2>>)} \cup LongTexts \cup {<<cMinus>> \o t : t \in LongTexts}
-ScalarElements ==
+ScalarElements(lazy) ==
   {Scalar("Boolean", b, 0, <<>>, <<>>) : b \in BOOLEAN}
   \cup {Scalar(k, FALSE, 0, str, <<>>) : k \in StringLikeKinds, str \in ScalarStrings}
   \cup {Scalar("Integer", FALSE, i, <<>>, <<>>) : i \in {0, 1, -1, 2147483647, -2147483647, MinInt32}}
@@ -392,9 +394,9 @@ RandZonedDescs(seed) == {ds \in {RandTemporalDesc(seed, k) : k \in 1..NRandom} :
 ProtoCases(seed) ==
   {[kind |-> "proto-precision", id |-> "Pto:DateTime:" \o CpsId(DescText(ds)), sub |-> "to", ek |-> "DateTime", expr |-> DescText(ds)]
      : ds \in {x \in RandZonedDescs(seed) : Len(x.f) \in {0, 3}}}
-  \cup {[kind |-> "proto-precision", id |-> "Pscalar:" \o ScalarId(el), sub |-> "fromscalar", el |-> el] : el \in ScalarElements}
-  \cup {[kind |-> "proto-precision", id |-> "Pfrom:" \o ElId(el), sub |-> "from", el |-> el, canon |-> TemporalLit(SysOfEl(el))] : el \in Elements}
-  \cup {[kind |-> "proto-precision", id |-> "Pto:" \o x.ek \o ":" \o CpsId(x.expr), sub |-> "to", ek |-> x.ek, expr |-> x.expr] : x \in ProtoToExprs}
+  \cup {[kind |-> "proto-precision", id |-> "Pscalar:" \o ScalarId(el), sub |-> "fromscalar", el |-> el] : el \in ScalarElements(0)}
+  \cup {[kind |-> "proto-precision", id |-> "Pfrom:" \o ElId(el), sub |-> "from", el |-> el, canon |-> TemporalLit(SysOfEl(el))] : el \in Elements(0)}
+  \cup {[kind |-> "proto-precision", id |-> "Pto:" \o x.ek \o ":" \o CpsId(x.expr), sub |-> "to", ek |-> x.ek, expr |-> x.expr] : x \in ProtoToExprs(0)}
 
 (* value of `literal` or `-literal` *)
 ValueOfExpr(e) ==
@@ -542,8 +544,8 @@ SameAsEl(r, el) ==
      /\ (el.prec = "MILLISECOND" => r.us \div 1000 = el.us \div 1000)
      /\ (el.prec = "MICROSECOND" => r.us = el.us)
 
-FhirTexts ==
-  {[ek |-> el.ek, text |-> ElText(el, zulu)] : el \in {e \in Elements : e.tzs \in {"num", "Z"}}, zulu \in BOOLEAN}
+FhirTexts(lazy) ==
+  {[ek |-> el.ek, text |-> ElText(el, zulu)] : el \in {e \in Elements(0) : e.tzs \in {"num", "Z"}}, zulu \in BOOLEAN}
   \cup {[ek |-> "DateTime", text |-> DateText(3, 2020, 2, 29) \o <<cT>> \o TodText(6, <<10, 30, 7>>, f) \o z] :
           f \in {<<5>>, <<2, 5>>, <<1, 2, 3, 4>>, <<1, 2, 3, 4, 5>>}, z \in {<<cZ>>, NumZoneText(120)}}
   \cup {[ek |-> "Time", text |-> TodText(6, <<10, 30, 7>>, f)] : f \in {<<5>>, <<2, 5>>, <<1, 2, 3, 4>>, <<1, 2, 3, 4, 5>>}}
@@ -551,8 +553,8 @@ FhirTexts ==
 HelperCases(seed) ==
   {[kind |-> "fhir-helpers", id |-> "Hparse:" \o ek \o ":" \o CpsId(Tail(DescText(ds))), sub |-> "parse", ek |-> ek, text |-> Tail(DescText(ds))]
      : ek \in {"DateTime", "Instant"}, ds \in {x \in RandZonedDescs(seed) : x.tp = 6}}
-  \cup {[kind |-> "fhir-helpers", id |-> "Hfmt:" \o ElId(el), sub |-> "fmt", ek |-> el.ek, el |-> el] : el \in Elements}
-  \cup {[kind |-> "fhir-helpers", id |-> "Hparse:" \o x.ek \o ":" \o CpsId(x.text), sub |-> "parse", ek |-> x.ek, text |-> x.text] : x \in FhirTexts}
+  \cup {[kind |-> "fhir-helpers", id |-> "Hfmt:" \o ElId(el), sub |-> "fmt", ek |-> el.ek, el |-> el] : el \in Elements(0)}
+  \cup {[kind |-> "fhir-helpers", id |-> "Hparse:" \o x.ek \o ":" \o CpsId(x.text), sub |-> "parse", ek |-> x.ek, text |-> x.text] : x \in FhirTexts(0)}
 
 (* fmt:  o.s = XToString(el) (code points), o.gs = generic ToString(el), o.js = jsonformat's rendering,      *)
 (*       o.el2 = Parse(o.s) projected ([k |-> "err"] when it fails)                                        *)
@@ -624,7 +626,7 @@ PointCase(api, F, T, v) ==
   [kind |-> "narrow", id |-> "P" \o api \o ":" \o F \o ">" \o T \o ":" \o (IF v.neg THEN "-" ELSE "") \o CpsId(v.m),
    sub |-> "point", api |-> api, from |-> F, to |-> T, v |-> v]
 
-NarrowCases ==
+NarrowCases(lazy) ==
   {RangeCase("narrow", F, T, -130, 258) : F \in IntTypes, T \in IntTypes}
   \cup {RangeCase("fhirconv", F, T, -130, 258) : F \in FhirIntTypes, T \in IntTypes}
   \cup UNION {{PointCase("narrow", F, T, v) : T \in IntTypes, v \in {x \in BoundaryValues : Representable(x, F)}} : F \in IntTypes}
@@ -676,7 +678,7 @@ CasesOf(fam, seed) ==
     [] fam = "lit-temporal" -> TemporalCases(seed)
     [] fam = "proto-precision" -> ProtoCases(seed)
     [] fam = "fhir-helpers" -> HelperCases(seed)
-    [] fam = "narrow" -> NarrowCases
+    [] fam = "narrow" -> NarrowCases(0)
 
 Judge(o) ==
   CASE o.kind = "lit-string" -> JString(o)
